@@ -212,14 +212,31 @@ def probe_consistency(inp: Dict[str, Any]) -> Dict[str, Any]:
     from seqm.seqm_functions.constants import Constants
 
     names = inp["names"]
-    sp = esh.settings(method=inp.get("method", "AM1"), eps=1e-11, converger=[1])
     s, x, ch, mu = esh.batch(names)
-    mol = Molecule(Constants(), sp, torch.as_tensor(x), torch.as_tensor(s))
+    lk = {}
+    if inp.get("callable_param"):
+        # parameters predicted by a model of the geometry (callable): the XL force must contain their geometry dependence exactly as the SCF force does
+        param = inp["callable_param"]
+        sp0 = esh.settings(method=inp.get("method", "AM1"), eps=1e-11, converger=[1])
+        with contextlib.redirect_stdout(io.StringIO()):
+            p0 = Molecule(Constants(), dict(sp0), torch.as_tensor(x), torch.as_tensor(s)).parameters[param].detach().clone()
+
+        def fn(species, coords):
+            real = (species > 0)
+            r2 = (coords ** 2).sum(-1)[real]
+            return {param: p0 * (1.0 + 0.01 * r2)}
+        sp = esh.settings(method=inp.get("method", "AM1"), eps=1e-11, converger=[1], learned=[param])
+        lk = {"learned_parameters": fn}
+        with contextlib.redirect_stdout(io.StringIO()):
+            mol = Molecule(Constants(), sp, torch.as_tensor(x), torch.as_tensor(s), learned_parameters=fn)
+    else:
+        sp = esh.settings(method=inp.get("method", "AM1"), eps=1e-11, converger=[1], **(inp.get("options") or {}))
+        mol = Molecule(Constants(), sp, torch.as_tensor(x), torch.as_tensor(s))
     es = Electronic_Structure(sp)
     with contextlib.redirect_stdout(io.StringIO()):
-        es(mol)
+        es(mol, **lk)
         E0, F0, P0 = mol.Etot.detach().clone(), mol.force.detach().clone(), mol.dm.detach().clone()
-        es(mol, P0=P0, dm_prop="XL-BOMD", xl_bomd_params={"k": inp.get("k", 5)})
+        es(mol, P0=P0, dm_prop="XL-BOMD", xl_bomd_params={"k": inp.get("k", 5)}, **lk)
     bad = []
     dE = float((mol.Etot - E0).abs().max())
     dF = float((mol.force - F0).abs().max())
@@ -304,6 +321,45 @@ def probe_aux_trace(inp: Dict[str, Any]) -> Dict[str, Any]:
             "fields": {"kinds": ["aux_trace"] if bad else [], "ksa": bool(inp.get("ksa", True)), "T_el": inp.get("T_el", 1500)}}
 
 
+def probe_xl_reinit(inp: Dict[str, Any]) -> Dict[str, Any]:
+    """a driver object that has already run a trajectory starts the NEXT run (another molecule of the same shape, or the same one again) from the converged
+    SCF density in every slot of the history buffer - the starting point all the C09 theorems assume (XLBuffer.init)"""
+    import torch
+
+    import seqm.MolecularDynamics as MD
+    from seqm.Molecule import Molecule
+    from seqm.seqm_functions.constants import Constants
+
+    k = inp.get("k", 4)
+    sp = dict(method="AM1", scf_eps=1e-10, scf_converger=[1], sp2=[False])
+    outp = {"molid": [0], "prefix": "/nonexistent/x", "print every": 0, "checkpoint every": 0, "xyz": 0, "h5": {}}
+    xp = {"k": k}
+    cls = MD.XL_BOMD
+    if inp.get("ksa"):
+        xp = {"k": k, "max_rank": 2, "err_threshold": 0.0, "T_el": 1500}
+        cls = MD.KSA_XL_BOMD
+    rng = np.random.default_rng(inp.get("seed", 0))
+    s, x, ch, mu = esh.batch(inp["names"])
+    bad = []
+    with contextlib.redirect_stdout(io.StringIO()):
+        molA = Molecule(Constants(), sp, torch.as_tensor(x), torch.as_tensor(s))
+        md = cls(xl_bomd_params=xp, seqm_parameters=sp, timestep=0.5, Temp=400.0, output=outp)
+        torch.manual_seed(3)
+        md.run(molA, inp.get("steps", 5), seed=3)
+        xb = x + (s > 0)[..., None] * rng.normal(size=x.shape) * 0.06
+        molB = Molecule(Constants(), sp, torch.as_tensor(xb), torch.as_tensor(s))
+        md.initialize(molB)
+        P, Pt = md._xl_ctx["P"].detach().numpy(), md._xl_ctx["Pt"].detach().numpy()
+    ref = esh.run(s, xb, esh.settings(method="AM1", eps=1e-10))["dm"]
+    d = float(np.abs(P - ref).max())
+    if d > 1e-7:
+        bad.append(f"second run on the same driver starts from an auxiliary density {d:.2e} away from the converged density of the new molecule")
+    ds = float(np.abs(Pt - ref[None]).max())
+    if ds > 1e-7:
+        bad.append(f"history buffer of the second run is not filled with the converged density (max deviation {ds:.2e})")
+    return {"ok": not bad, "observed": bad, "expected": "every run starts from P = D_scf in all buffer slots", "predicate": "", "fields": {"kinds": ["xl_reinit"] if bad else [], "k": k, "ksa": bool(inp.get("ksa"))}}
+
+
 def probe_shadow(inp: Dict[str, Any]) -> Dict[str, Any]:
     """shadow-energy fluctuation ~ dt^2, no drift, and XL trajectory -> BOMD as dt -> 0"""
     names = inp["names"]
@@ -334,7 +390,7 @@ def probe_shadow(inp: Dict[str, Any]) -> Dict[str, Any]:
             "fields": {"kinds": ["shadow"] if bad else [], "k": k}}
 
 
-PROBES = {"aux_trace": probe_aux_trace, "consistency": probe_consistency, "stationary": probe_stationary, "shadow": probe_shadow, "restart_phase": probe_restart_replay}
+PROBES = {"xl_reinit": probe_xl_reinit, "aux_trace": probe_aux_trace, "consistency": probe_consistency, "stationary": probe_stationary, "shadow": probe_shadow, "restart_phase": probe_restart_replay}
 
 
 def gen_cases(ctx: Ctx):
@@ -343,9 +399,13 @@ def gen_cases(ctx: Ctx):
     for i, nm in enumerate(["h2o", "ch2o", "nh3", "hcn"][: (4 if ctx.thorough else 2)]):
         cases.append(("consistency", {"names": [nm], "method": ["AM1", "PM3", "MNDO", "PM6_SP"][i], "k": int(rng.integers(3, 10))}))
     cases.append(("consistency", {"names": ["h2o", "h2"], "method": "AM1", "k": 4}))
+    # optional Hamiltonian terms must be in the XL energy as well (AM1 pair correction acting between two methanes)
+    cases.append(("consistency", {"names": ["ch4_dimer"], "method": "AM1", "k": int(rng.integers(3, 10)), "options": {"dispersion": True}}))
+    cases.append(("consistency", {"names": [str(rng.choice(["h2o", "nh3", "ch2o"]))], "method": str(rng.choice(["AM1", "PM3"])), "k": int(rng.integers(3, 10)), "callable_param": str(rng.choice(["U_ss", "beta_s", "g_ss", "zeta_s"]))}))
     for k in (range(3, 10) if ctx.thorough else [3, int(rng.integers(4, 9)), 9]):
         cases.append(("stationary", {"names": ["h2o"], "k": int(k)}))
     cases.append(("stationary", {"names": ["h2o"], "k": 4, "ksa": True, "tol": 1e-7}))  # (KSA on an all-hydrogen molecule raises inside fock: noted in DESIGN "also seen")
+    cases.append(("xl_reinit", {"names": [["h2o"], ["h2o", "ch4"]][ctx.seed % 2], "k": int(rng.integers(3, 10)), "ksa": bool(ctx.seed % 3 == 1), "steps": int(rng.integers(3, 9)), "seed": int(rng.integers(1, 999))}))
     # electron count of the auxiliary density: padded member of a mixed batch, fractional occupations, Krylov ranks 1..4
     cases.append(("aux_trace", {"names": ["ch2o", "h2o"], "k": int(rng.integers(3, 10)), "max_rank": int(rng.integers(3, 5)), "T_el": 20000, "seed": int(rng.integers(1, 99)), "steps": 7}))
     cases.append(("aux_trace", {"names": ["h2o", "ch2o"], "k": 4, "max_rank": int(rng.integers(1, 5)), "T_el": float(rng.choice([5000, 12000, 30000])), "seed": int(rng.integers(1, 99))}))
